@@ -76,18 +76,20 @@ const (
 	evTrunc
 	evClose
 	evDelete
-	evMark // leveldb now durably holds the first N commits
+	evMark // OBSERVED change of the leveldb directory: N = running number of the observed metadata state
+	evStep // a db.Update (or the final Close) has returned: N = db.Update calls returned so far, Off = 1 if it promised durability (flush / close)
 )
 
-var evKindNames = []string{"OpenWrite", "WriteAt", "Sync", "Truncate", "Close", "Delete", "LDB"}
+var evKindNames = []string{"OpenWrite", "WriteAt", "Sync", "Truncate", "Close", "Delete", "LDB#", "StepEnd"}
 
 type fsEvent struct {
 	Kind int
 	File uint32
 	Off  int64
 	Data []byte
-	N    int // evMark: number of commits durable in leveldb; evTrunc: size
+	N    int // evMark: number of the observed metadata state; evStep: db.Update calls returned; evTrunc: size
 	Done int // number of db.Update calls that had returned when the event was logged
+	Upto int // evMark: number of db.Update calls that had been STARTED when the state was observed (the state holds commits <= Upto)
 }
 
 func (e fsEvent) String() string {
@@ -97,27 +99,215 @@ func (e fsEvent) String() string {
 	case evTrunc:
 		return fmt.Sprintf("Truncate(f%d,%d)", e.File, e.N)
 	case evMark:
-		return fmt.Sprintf("LDB(%d)", e.N)
+		return fmt.Sprintf("LDB#%d", e.N)
+	case evStep:
+		if e.Off == 1 {
+			return fmt.Sprintf("StepEnd(%d,flushed)", e.N)
+		}
+		return fmt.Sprintf("StepEnd(%d)", e.N)
 	}
 	return fmt.Sprintf("%s(f%d)", evKindNames[e.Kind], e.File)
 }
 
+// metaDir is an in-memory copy of a leveldb directory.
+type metaDir map[string][]byte
+
+// recorder logs the write-side block-file events of the database under test and
+// OBSERVES its leveldb ("metadata") directory: before any event is appended the
+// directory is looked at, so a leveldb commit that happened since the previous
+// event is placed before the current one (ported from checks/c05/fsim.go).
 type recorder struct {
-	mu   sync.Mutex
-	log  []fsEvent
-	done *int
+	mu  sync.Mutex
+	log []fsEvent
+	db  *recDB // commit counters of the run
+
+	dir      string           // <db dir>/metadata
+	lastSig  string           // physical signature (names, sizes, mtimes) at the last look
+	lastHash [32]byte         // hash of the logical leveldb content of the newest kept state
+	nStates  int              // number of observed logical states so far
+	snaps    map[int]metaDir  // state number -> verified copy
+	hashes   map[int][32]byte // state number -> logical hash
+	obsErr   string           // harness problem while copying / verifying (=> BROKEN, never a verdict)
+}
+
+func (s *recorder) tag(e *fsEvent) {
+	if s.db != nil {
+		e.Done = s.db.commits
+		e.Upto = s.db.commits
+		if s.db.inUpdate {
+			e.Upto++
+		}
+	}
 }
 
 func (s *recorder) rec(e fsEvent) {
 	s.mu.Lock()
-	if s.done != nil {
-		e.Done = *s.done
-	}
+	// a leveldb commit that happened since the previous event is placed BEFORE
+	// the current event
+	s.observeLocked()
+	s.tag(&e)
 	s.log = append(s.log, e)
 	s.mu.Unlock()
 }
 
-func (s *recorder) mark(n int) { s.rec(fsEvent{Kind: evMark, N: n}) }
+// stepEnd is called by the database wrapper when a db.Update (or the final
+// Close) has returned: n = db.Update calls returned so far, flushed = the call
+// promised durability of everything committed so far.
+func (s *recorder) stepEnd(n int, flushed bool) {
+	off := int64(0)
+	if flushed {
+		off = 1
+	}
+	s.rec(fsEvent{Kind: evStep, N: n, Off: off})
+}
+
+// observe looks at the leveldb directory now (used right after Create).
+func (s *recorder) observe() {
+	s.mu.Lock()
+	s.observeLocked()
+	s.mu.Unlock()
+}
+
+func skipMetaFile(name string) bool { return name == "LOCK" || name == "LOG" || name == "LOG.old" }
+
+// dirSig is the physical signature of a directory: names, sizes, mtimes.
+func dirSig(dir string) string {
+	ents, err := os.ReadDir(dir)
+	if err != nil {
+		return "unreadable: " + err.Error()
+	}
+	var parts []string
+	for _, e := range ents {
+		if e.IsDir() || skipMetaFile(e.Name()) {
+			continue
+		}
+		fi, err := e.Info()
+		if err != nil {
+			parts = append(parts, e.Name()+":gone")
+			continue
+		}
+		parts = append(parts, fmt.Sprintf("%s:%d:%d", e.Name(), fi.Size(), fi.ModTime().UnixNano()))
+	}
+	sort.Strings(parts)
+	return fmt.Sprint(parts)
+}
+
+// readMeta copies the leveldb files (not LOCK / LOG) into memory.
+func readMeta(src string) (metaDir, error) {
+	ents, err := os.ReadDir(src)
+	if err != nil {
+		return nil, err
+	}
+	md := metaDir{}
+	for _, e := range ents {
+		if e.IsDir() || skipMetaFile(e.Name()) {
+			continue
+		}
+		b, err := os.ReadFile(filepath.Join(src, e.Name()))
+		if err != nil {
+			return nil, err
+		}
+		md[e.Name()] = b
+	}
+	return md, nil
+}
+
+func (md metaDir) writeTo(dst string) error {
+	if err := os.MkdirAll(dst, 0o700); err != nil {
+		return err
+	}
+	for name, b := range md {
+		if err := os.WriteFile(filepath.Join(dst, name), b, 0o600); err != nil {
+			return err
+		}
+	}
+	return nil
+}
+
+var scratchSeq int64
+
+func newScratch(tag string) string {
+	return fmt.Sprintf("%s/verif-%d-%s%d", lab.ShmRoot(), os.Getpid(), tag, atomic.AddInt64(&scratchSeq, 1))
+}
+
+// logicalHash opens a scratch copy of a leveldb directory with goleveldb itself
+// (read-only) and hashes every key/value pair: proof that the copy is a
+// consistent, openable leveldb state, and the identity of its logical content.
+func logicalHash(md metaDir) ([32]byte, error) {
+	var out [32]byte
+	tmp := newScratch("ldbchk")
+	defer os.RemoveAll(tmp)
+	if err := md.writeTo(tmp); err != nil {
+		return out, err
+	}
+	db, err := leveldb.OpenFile(tmp, &opt.Options{ErrorIfMissing: true, ReadOnly: true, Strict: opt.DefaultStrict})
+	if err != nil {
+		return out, err
+	}
+	defer db.Close()
+	h := sha256.New()
+	it := db.NewIterator(nil, nil)
+	for it.Next() {
+		fmt.Fprintf(h, "%d:%d:", len(it.Key()), len(it.Value()))
+		h.Write(it.Key())
+		h.Write(it.Value())
+	}
+	it.Release()
+	if err := it.Error(); err != nil {
+		return out, err
+	}
+	copy(out[:], h.Sum(nil))
+	return out, nil
+}
+
+// observeLocked compares the leveldb directory with the last look.  If it
+// changed physically, a point-in-time copy is taken (retried until the signature
+// is the same before and after copying: goleveldb's background compaction may
+// still be renaming / deleting files), verified by opening it with goleveldb, and
+// -- if the LOGICAL content differs from the newest kept state -- kept as
+// metadata state #k with an LDB#k marker appended to the log.  Physical-only
+// changes (compaction, journal rotation, recovery at open) leave no marker, so
+// the log is a deterministic function of the workload and the flush regime.
+func (s *recorder) observeLocked() {
+	if s.dir == "" || s.obsErr != "" {
+		return
+	}
+	sig := dirSig(s.dir)
+	if sig == s.lastSig {
+		return
+	}
+	var lastErr error
+	for attempt := 0; attempt < 200; attempt++ {
+		before := dirSig(s.dir)
+		md, err := readMeta(s.dir)
+		after := dirSig(s.dir)
+		if err != nil || before != after {
+			lastErr = fmt.Errorf("directory changed while copying (%v)", err)
+			continue
+		}
+		hash, err := logicalHash(md)
+		if err != nil {
+			lastErr = err
+			continue
+		}
+		s.lastSig = after
+		if s.nStates > 0 && hash == s.lastHash {
+			return // physical change only
+		}
+		if s.snaps == nil {
+			s.snaps, s.hashes = map[int]metaDir{}, map[int][32]byte{}
+		}
+		s.snaps[s.nStates] = md
+		s.hashes[s.nStates] = hash
+		s.lastHash = hash
+		e := fsEvent{Kind: evMark, N: s.nStates}
+		s.tag(&e)
+		s.log = append(s.log, e)
+		s.nStates++
+		return
+	}
+	s.obsErr = fmt.Sprintf("cannot take a consistent, openable copy of %s: %v", s.dir, lastErr)
+}
 
 func (s *recorder) install(db database.DB) {
 	ffldb.VerifInstallFileHooks(db, ffldb.VerifFileHooks{
@@ -219,33 +409,27 @@ func setFlush(db database.DB, flush bool) {
 }
 
 // recDB numbers the db.Update calls like part 1's crashDB, drives the flush
-// policy per commit, places the LDB markers and can stop the run on entry to
-// commit stopAt+1 (scratch runs that produce the leveldb state "as of commit m").
+// policy per commit and logs the step boundaries.
 type recDB struct {
 	database.DB
-	rec         *recorder // nil: no recording
+	rec         *recorder
 	regime      flushRegime
-	commits     int
-	stopAt      int // -1: never
+	commits     int  // db.Update calls that have returned
+	inUpdate    bool // a db.Update call is running
 	afterCommit func(n int)
 }
 
 func (d *recDB) Update(fn func(tx database.Tx) error) error {
-	if d.stopAt >= 0 && d.commits >= d.stopAt {
-		panic(crashSentinel{d.commits})
-	}
 	c := d.commits + 1
 	fl := d.regime.flushAt(c)
 	setFlush(d.DB, fl)
+	d.inUpdate = true
 	err := d.DB.Update(fn)
 	// a failed Update commits nothing (rolled back before any file or leveldb
 	// I/O) but still is a point in the history, as in part 1
+	d.inUpdate = false
 	d.commits = c
-	if err == nil && fl && d.rec != nil {
-		// flush(): cached commits (< c) first, then the transaction itself
-		d.rec.mark(c - 1)
-		d.rec.mark(c)
-	}
+	d.rec.stepEnd(c, err == nil && fl)
 	if d.afterCommit != nil {
 		d.afterCommit(c)
 	}
@@ -264,16 +448,18 @@ func (c imgConfig) String() string {
 	return fmt.Sprintf("%s/cache=%d/blockfile=%d", c.wl.Name, c.cache, c.wl.blockFile)
 }
 
-func (c imgConfig) opts(d **recDB, rec *recorder, reg flushRegime, stopAt int) lab.ChainOpts {
+func (c imgConfig) opts(ch **lab.Chain, d **recDB, rec *recorder, reg flushRegime) lab.ChainOpts {
 	return lab.ChainOpts{CacheSize: c.cache, Prune: c.wl.prune, WrapDB: func(db database.DB) database.DB {
 		if c.wl.blockFile != 0 {
 			ffldb.VerifSetMaxBlockFileSize(db, c.wl.blockFile)
 		}
-		w := &recDB{DB: db, rec: rec, regime: reg, stopAt: stopAt}
-		if rec != nil {
-			rec.done = &w.commits
-			rec.install(db)
-		}
+		w := &recDB{DB: db, rec: rec, regime: reg}
+		rec.db = w
+		rec.install(db)
+		// metadata state #0: the freshly created database (database.Create has
+		// returned, blockchain.New has not started)
+		rec.dir = filepath.Join((*ch).Dir, ffldb.VerifMetadataDirName)
+		rec.observe()
 		*d = w
 		return w
 	}}
@@ -283,6 +469,8 @@ func (c imgConfig) opts(d **recDB, rec *recorder, reg flushRegime, stopAt int) l
 type recording struct {
 	regime      flushRegime
 	log         []fsEvent
+	snaps       map[int]metaDir        // observed metadata state #k -> verified copy of the leveldb directory
+	hashes      map[int][32]byte       // observed metadata state #k -> hash of its logical content
 	commits     int                    // db.Update calls including the shutdown flush
 	firstActive map[chainhash.Hash]int // tip -> number of completed commits when it was first seen active
 	retCommit   []int                  // per delivery: completed commits when ProcessBlock returned
@@ -290,43 +478,35 @@ type recording struct {
 }
 
 // drive runs the workload on a fresh chain: blockchain.New, all deliveries, the
-// shutdown flush of the utxo cache (what btcd does on a clean stop).  It returns
-// crashed=true if the wrapper's stop point was reached.  The database is left
-// open; the caller closes it.
-func (c imgConfig) drive(ch **lab.Chain, d **recDB, rec *recorder, reg flushRegime, stopAt int, onOpen func(), onRet func(i int)) (crashed bool, problem string) {
+// shutdown flush of the utxo cache (what btcd does on a clean stop).  The
+// database is left open; the caller closes it.
+func (c imgConfig) drive(ch **lab.Chain, d **recDB, rec *recorder, reg flushRegime, onOpen func(), onRet func(i int)) (problem string) {
 	defer func() {
 		if p := recover(); p != nil {
-			if _, ok := p.(crashSentinel); ok {
-				crashed = true
-				return
-			}
 			problem = fmt.Sprintf("panic: %v", p)
 		}
 	}()
-	if err := lab.NewChainP(lab.CloneParams(c.wl.w.Params), c.opts(d, rec, reg, stopAt), ch); err != nil {
-		return false, "open: " + err.Error()
+	if err := lab.NewChainP(lab.CloneParams(c.wl.w.Params), c.opts(ch, d, rec, reg), ch); err != nil {
+		return "open: " + err.Error()
 	}
 	if onOpen != nil {
 		onOpen()
 	}
 	r := &run{wl: c.wl, cache: c.cache, c: *ch}
 	n := 0
-	cr, p := r.deliver(func(chainhash.Hash) {
+	_, p := r.deliver(func(chainhash.Hash) {
 		if onRet != nil {
 			onRet(n)
 		}
 		n++
 	})
-	if cr {
-		return true, ""
-	}
 	if p != "" {
-		return false, p
+		return p
 	}
 	if err := (*ch).BC.FlushUtxoCache(blockchain.FlushRequired); err != nil {
-		return false, "FlushUtxoCache: " + err.Error()
+		return "FlushUtxoCache: " + err.Error()
 	}
-	return false, ""
+	return ""
 }
 
 func (c imgConfig) record(reg flushRegime) (*recording, string) {
@@ -357,11 +537,11 @@ func (c imgConfig) record(reg flushRegime) (*recording, string) {
 			see(ch.BC.BestSnapshot().Hash)
 		}
 	}
-	crashed, problem := c.drive(&ch, &d, rec, reg, -1, onOpen, func(i int) {
+	problem := c.drive(&ch, &d, rec, reg, onOpen, func(i int) {
 		rc.retCommit[i] = d.commits
 		see(ch.BC.BestSnapshot().Hash)
 	})
-	if crashed || problem != "" {
+	if problem != "" {
 		return nil, "recording run failed: " + problem
 	}
 	rc.finalTip = ch.BC.BestSnapshot().Hash
@@ -372,58 +552,19 @@ func (c imgConfig) record(reg flushRegime) (*recording, string) {
 		return nil, "close: " + err.Error()
 	}
 	ch.RawDB, ch.DB, ch.BC = nil, nil, nil
-	rec.mark(rc.commits)
+	rec.stepEnd(rc.commits, true)
 	rec.mu.Lock()
 	rc.log = append([]fsEvent{}, rec.log...)
+	rc.snaps, rc.hashes = rec.snaps, rec.hashes
+	obsErr := rec.obsErr
 	rec.mu.Unlock()
+	if obsErr != "" {
+		return nil, "metadata observation: " + obsErr
+	}
+	if len(rc.log) == 0 || rc.log[0].Kind != evMark || rc.log[0].N != 0 {
+		return nil, "metadata observation: the log does not start with LDB#0"
+	}
 	return rc, ""
-}
-
-// metaDir is an in-memory copy of a leveldb directory.
-type metaDir map[string][]byte
-
-// metadataFor re-runs the workload on a scratch instance up to commit m, closes
-// it cleanly (which makes exactly the first m commits durable in leveldb) and
-// returns a copy of the leveldb directory.
-func (c imgConfig) metadataFor(m, total int) (metaDir, error) {
-	var ch *lab.Chain
-	var d *recDB
-	defer func() {
-		if ch != nil {
-			ch.Destroy()
-		}
-	}()
-	crashed, problem := c.drive(&ch, &d, nil, flushRegime{}, m, nil, nil)
-	if problem != "" {
-		return nil, fmt.Errorf("scratch run: %s", problem)
-	}
-	if !crashed && m != total {
-		return nil, fmt.Errorf("scratch run ended after %d commits, wanted to stop at %d (recorded run had %d): nondeterministic commit count", d.commits, m, total)
-	}
-	if d == nil || d.commits != m {
-		return nil, fmt.Errorf("scratch run stopped at the wrong commit")
-	}
-	if err := ch.RawDB.Close(); err != nil {
-		return nil, err
-	}
-	ch.RawDB, ch.DB, ch.BC = nil, nil, nil
-	src := filepath.Join(ch.Dir, ffldb.VerifMetadataDirName)
-	ents, err := os.ReadDir(src)
-	if err != nil {
-		return nil, err
-	}
-	md := metaDir{}
-	for _, e := range ents {
-		if e.IsDir() || e.Name() == "LOCK" {
-			continue
-		}
-		b, err := os.ReadFile(filepath.Join(src, e.Name()))
-		if err != nil {
-			return nil, err
-		}
-		md[e.Name()] = b
-	}
-	return md, nil
 }
 
 // ---------------------------------------------------------------- image construction (from checks/c05/crash.go)
